@@ -23,6 +23,13 @@
 (*   vector registers x1,x2,... (a second, independent unbounded set; lane 0 holds a 16-bit value):              *)
 (*   <<"vset",x,s>> (movd x,s)  <<"vget",d,x>> (movd d,x)  <<"vmov",x,y>>  <<"vxor",x,y>> <<"vor",x,y>> <<"vand",x,y>> *)
 (*   <<"vinitall",lo,hi>>  (x := InitConst(1000+x))   <<"vfold",acc,lo,hi>>  (acc := acc*31 + x ...)              *)
+(*   64-bit general registers q1,q2,... (a third set; value = <<hi,lo>>: upper / lower 32-bit half, each holding   *)
+(*   a 16-bit quantity; they share the GP register file with the 32-bit registers):                               *)
+(*   <<"qset",q,a,b>> (q := a<<32 | b)  <<"qhi",d,q>> <<"qlo",d,q>>  <<"qmov",q,p>>  <<"qxor",q,p>> (64-bit ops)      *)
+(*   <<"qmov32",q,p>> (mov q32,p32)  <<"qsx",q,a>> (movsxd)  <<"qop0",op,q>> (op q32,0 with op in add sub xor or     *)
+(*   shl shr sar rol ror):  a 32-bit write ZERO-EXTENDS, i.e. clears the upper half                                *)
+(*   <<"qset16",q,a>> <<"qset8",q,a>>  (16/8-bit partial writes: everything else is preserved)                     *)
+(*   <<"qinitall",lo,hi>>   <<"qfold",acc,lo,hi>>  (acc folds hi then lo of every q)                               *)
 EXTENDS Integers, Sequences, FiniteSets, TLC, Bitwise
 
 M16 == 65536
@@ -70,7 +77,20 @@ RegsOf(I) ==
     [] op = "vset" -> <<I[3]>>
     [] op = "vget" -> <<I[2]>>
     [] op = "vfold" -> <<I[2]>>
+    [] op = "qset" -> <<I[3], I[4]>>
+    [] op \in {"qhi", "qlo", "qfold"} -> <<I[2]>>
+    [] op \in {"qsx", "qset16", "qset8"} -> <<I[3]>>
     [] OTHER -> <<>>
+QRegsOf(I) ==
+  LET op == I[1] IN
+  CASE op \in {"qset", "qsx", "qset16", "qset8"} -> <<I[2]>>
+    [] op \in {"qhi", "qlo", "qop0"} -> <<I[3]>>
+    [] op \in {"qmov", "qxor", "qmov32", "qinitall"} -> <<I[2], I[3]>>
+    [] op = "qfold" -> <<I[3], I[4]>>
+    [] OTHER -> <<>>
+RECURSIVE ProgMaxQReg(_, _)
+ProgMaxQReg(prog, n) == IF n = 0 THEN 0 ELSE
+  LET a == SeqMax(QRegsOf(prog[n])) b == ProgMaxQReg(prog, n - 1) IN IF a > b THEN a ELSE b
 XRegsOf(I) ==
   LET op == I[1] IN
   CASE op = "vset" -> <<I[2]>>
@@ -86,12 +106,14 @@ ProgMaxReg(prog, n) == IF n = 0 THEN 0 ELSE
   LET a == SeqMax(RegsOf(prog[n])) b == ProgMaxReg(prog, n - 1) IN IF a > b THEN a ELSE b
 
 (* ---- machine ---- *)
-InitMachineX(nv, nx, in) ==
+InitMachineW(nv, nx, nq, in) ==
   [ r |-> [v \in 1..nv |-> IF v = 1 THEN in[1] ELSE IF v = 2 THEN in[2] ELSE 0],
     x |-> [v \in 1..nx |-> 0], xdef |-> {},
+    q |-> [v \in 1..nq |-> <<0, 0>>], qdef |-> {},
     def |-> {v \in 1..nv : v <= 2},                       \* registers written so far (reads of others = ill-defined)
     pc |-> 1, out |-> [k \in 1..NOUT |-> 0], stk |-> [k \in 1..NS |-> 0], sdef |-> {},
     log |-> <<>>, ret |-> 0, halted |-> FALSE, bad |-> FALSE ]
+InitMachineX(nv, nx, in) == InitMachineW(nv, nx, 0, in)
 InitMachine(nv, in) == InitMachineX(nv, 0, in)
 
 RECURSIVE FoldVal(_, _, _, _)
@@ -102,6 +124,24 @@ XReads(I) ==
     [] op \in {"vxor", "vor", "vand"} -> {I[2], I[3]}
     [] op = "vfold" -> I[3]..I[4]
     [] OTHER -> {}
+QReads(I) ==
+  LET op == I[1] IN
+  CASE op \in {"qhi", "qlo", "qop0"} -> {I[3]}
+    [] op \in {"qmov", "qmov32"} -> {I[3]}
+    [] op = "qxor" -> {I[2], I[3]}
+    [] op \in {"qset16", "qset8"} -> {I[2]}
+    [] op = "qfold" -> I[3]..I[4]
+    [] OTHER -> {}
+QWrites(I) ==
+  LET op == I[1] IN
+  CASE op \in {"qset", "qmov", "qxor", "qmov32", "qsx", "qset16", "qset8"} -> {I[2]}
+    [] op = "qop0" -> {I[3]}
+    [] op = "qinitall" -> I[2]..I[3]
+    [] OTHER -> {}
+RECURSIVE QFoldVal(_, _, _, _)
+QFoldVal(q, acc, lo, hi) ==
+  IF lo > hi THEN acc
+  ELSE QFoldVal(q, (Mul16((Mul16(acc, 31) + q[lo][1]) % M16, 31) + q[lo][2]) % M16, lo + 1, hi)
 XWrites(I) ==
   LET op == I[1] IN
   CASE op \in {"vset", "vmov", "vxor", "vor", "vand"} -> {I[2]}
@@ -134,11 +174,15 @@ Reads(I) ==
     [] op = "vset" -> {I[3]}
     [] op = "vfold" -> {I[2]}
     [] op \in {"vget", "vmov", "vxor", "vor", "vand", "vinitall"} -> {}
+    [] op = "qset" -> {I[3], I[4]}
+    [] op \in {"qsx", "qset16", "qset8"} -> {I[3]}
+    [] op = "qfold" -> {I[2]}
+    [] op \in {"qhi", "qlo", "qmov", "qxor", "qmov32", "qop0", "qinitall"} -> {}
 
 Writes(I) ==
   LET op == I[1] IN
   CASE op \in {"movi", "mov", "add", "sub", "imul", "and", "or", "xor", "addi", "subi", "muli", "andi", "ori", "neg", "not",
-               "shl", "shr", "sar", "xorself", "ld", "sld", "sldx", "call1", "call2", "fold", "vget", "vfold"} -> {I[2]}
+               "shl", "shr", "sar", "xorself", "ld", "sld", "sldx", "call1", "call2", "fold", "vget", "vfold", "qhi", "qlo", "qfold"} -> {I[2]}
     [] op = "setcc" -> {I[5]}
     [] op = "cmov" -> {I[5]}
     [] op \in {"div", "idiv", "mul"} -> {I[2], I[3]}
@@ -151,6 +195,8 @@ Writes(I) ==
 WellDefinedAt(m, I) ==
   /\ Reads(I) \subseteq m.def
   /\ XReads(I) \subseteq m.xdef
+  /\ QReads(I) \subseteq m.qdef
+  /\ (I[1] \in {"qmov32"} => I[2] # I[3])
   /\ (I[1] \in {"div", "idiv"} => m.r[I[2]] = 0 /\ m.r[I[4]] # 0 /\ Cardinality({I[2], I[3], I[4]}) = 3)
   /\ (I[1] = "mul" => Cardinality({I[2], I[3], I[4]}) = 3)
   /\ (I[1] = "cmpxchg" => Cardinality({I[2], I[3], I[4]}) = 3)
@@ -168,8 +214,9 @@ Exec(prog, m) ==
   LET I == prog[m.pc]
       op == I[1]
       r == m.r
-      m1 == [m EXCEPT !.def = @ \cup Writes(I), !.xdef = @ \cup XWrites(I)]
+      m1 == [m EXCEPT !.def = @ \cup Writes(I), !.xdef = @ \cup XWrites(I), !.qdef = @ \cup QWrites(I)]
       x == m.x
+      q == m.q
   IN
   CASE op = "movi" -> Set(m1, I[2], I[3])
     [] op = "mov"  -> Set(m1, I[2], r[I[3]])
@@ -222,6 +269,18 @@ Exec(prog, m) ==
     [] op = "vand" -> [m1 EXCEPT !.x[I[2]] = x[I[2]] & x[I[3]], !.pc = @ + 1]
     [] op = "vinitall" -> [m1 EXCEPT !.x = [v \in DOMAIN x |-> IF v \in I[2]..I[3] THEN InitConst(1000 + v) ELSE x[v]], !.pc = @ + 1]
     [] op = "vfold" -> Set(m1, I[2], FoldVal(x, r[I[2]], I[3], I[4]))
+    [] op = "qset" -> [m1 EXCEPT !.q[I[2]] = <<r[I[3]], r[I[4]]>>, !.pc = @ + 1]
+    [] op = "qhi"  -> Set(m1, I[2], q[I[3]][1])
+    [] op = "qlo"  -> Set(m1, I[2], q[I[3]][2])
+    [] op = "qmov" -> [m1 EXCEPT !.q[I[2]] = q[I[3]], !.pc = @ + 1]
+    [] op = "qxor" -> [m1 EXCEPT !.q[I[2]] = <<q[I[2]][1] ^^ q[I[3]][1], q[I[2]][2] ^^ q[I[3]][2]>>, !.pc = @ + 1]
+    [] op = "qmov32" -> [m1 EXCEPT !.q[I[2]] = <<0, q[I[3]][2]>>, !.pc = @ + 1]        \* 32-bit write: upper half cleared
+    [] op = "qsx"  -> [m1 EXCEPT !.q[I[2]] = <<0, r[I[3]]>>, !.pc = @ + 1]              \* value < 2^31: sign = zero extension
+    [] op = "qop0" -> [m1 EXCEPT !.q[I[3]] = <<0, q[I[3]][2]>>, !.pc = @ + 1]            \* op r32,0: low half kept, upper half cleared
+    [] op = "qset16" -> [m1 EXCEPT !.q[I[2]] = <<q[I[2]][1], r[I[3]]>>, !.pc = @ + 1]
+    [] op = "qset8" -> [m1 EXCEPT !.q[I[2]] = <<q[I[2]][1], (q[I[2]][2] \div 256) * 256 + (r[I[3]] % 256)>>, !.pc = @ + 1]
+    [] op = "qinitall" -> [m1 EXCEPT !.q = [v \in DOMAIN q |-> IF v \in I[2]..I[3] THEN <<InitConst(2000 + v), InitConst(3000 + v)>> ELSE q[v]], !.pc = @ + 1]
+    [] op = "qfold" -> Set(m1, I[2], QFoldVal(q, r[I[2]], I[3], I[4]))
     [] op = "ret"  -> [m1 EXCEPT !.ret = r[I[2]], !.halted = TRUE]
 
 (* one step of one machine; an ill-defined step or running off the end marks the machine bad (generator bug) *)
